@@ -1336,9 +1336,13 @@ static void ip_frag_off_case(Src& s, Ctx& ctx) {
             VCHECK(ctx, after[b] == expect, sig + ((b == 6 || b == 7) ? ":wire-value" : ":serialisation-changed-outside-field"),
                    hist << ": octet " << b << " is " << (int)after[b] << ", expected " << expect);
         }
-        IP q(after.data(), (uint32_t)after.size());
-        const IP& cq = q;
-        VCHECK(ctx, cq.frag_off() == model && (unsigned)cq.flags() == (model >> 13) && (unsigned)cq.fragment_offset() == (model & 0x1fff), sig + ":reparse-differs", hist);
+        try {
+            IP q(after.data(), (uint32_t)after.size());
+            const IP& cq = q;
+            VCHECK(ctx, cq.frag_off() == model && (unsigned)cq.flags() == (model >> 13) && (unsigned)cq.fragment_offset() == (model & 0x1fff), sig + ":reparse-differs", hist);
+        } catch (const malformed_packet&) {
+            ctx.label("reparse-payload-rejected");   // the random payload octets are not a message of the protocol the (random) protocol field names
+        }
         before = after;
     }
     ctx.label("ip-frag-off-block");
